@@ -414,12 +414,30 @@ func genRedisConv(r *Rand, tier string, emit func(sx.Sx)) {
 	// pipelined pairs of simple replies (the k-th reply belongs to the k-th command)
 	one(mk("SET", [][]byte{[]byte("k1"), []byte("v1")}, ok), mk("GET", [][]byte{[]byte("k1")}, sx.L(sx.A("bulk"), sx.S("v1"))))
 	one(mk("PING", nil, sx.L(sx.A("simple"), sx.S("PONG"))), mk("PING", nil, sx.L(sx.A("simple"), sx.S("PONG"))), mk("GET", [][]byte{[]byte("a")}, sx.L(sx.A("nullbulk"))))
+	// long-lived connections: 10-40 exchanges, the same reply shape many times over (a worker polling
+	// with BLPOP timeouts gets a null array each time; counters and caches inside the reader must not
+	// carry anything from one reply to the next)
+	shapes := []sx.Sx{sx.L(sx.A("nullarray")), sx.L(sx.A("nullbulk")), sx.L(sx.A("array")), sx.L(sx.A("int"), sx.I(7)),
+		sx.L(sx.A("error"), sx.S("ERR unknown command")), sx.L(sx.A("array"), sx.L(sx.A("bulk"), sx.S("GET")), sx.L(sx.A("nullarray")))}
+	for _, shape := range shapes {
+		for _, n := range []int{9, 12, 40} {
+			exs := make([]sx.Sx, 0, n+1)
+			for j := 0; j < n; j++ {
+				exs = append(exs, mk("BLPOP", [][]byte{[]byte(fmt.Sprintf("queue:%d", j)), []byte("1")}, shape))
+			}
+			exs = append(exs, mk("INCR", [][]byte{[]byte("polls")}, sx.L(sx.A("int"), sx.I(42))))
+			one(exs...)
+		}
+	}
 	count := 1500
 	if tier == "thorough" {
 		count = 30000
 	}
 	for i := 0; i < count; i++ {
 		n := 1 + r.Intn(6)
+		if r.Chance(3) {
+			n = 10 + r.Intn(30)
+		}
 		exs := make([]sx.Sx, n)
 		big := r.Chance(5)
 		for j := range exs {
